@@ -1,9 +1,10 @@
 Require Extraction.
 Require Import ExtrOcamlBasic.
 From LH Require Import Base.Bytes Base.Res Base.Utf8 Model.Lexer Model.Ast Model.Parser Model.Number Model.LuaFront Spec.LspRange
-  Model.TextSync Spec.LspText Proofs.ServerRange.
+  Model.TextSync Spec.LspText Proofs.ServerRange Proofs.ServerRangeText.
 Extraction "c04model.ml" extract_anchor tk_code lex_all parse_bytes classify_tok tok_loc
   covers all_tokens_covered raw_kind file_class_ok cls_escape cls_long_bracket cls_astral cls_two_byte cls_lfcr cls_bom cls_lexerr
   utf8_of scalar
   ranges_designate range_designates range_in_doc ident_at ident_locs loc_of_range
-  cls_string_key cls_self_alias cls_outline_span ident_text_at cls_prefix_fallback chain_before cls_other_entity chain_after cls_later_member cls_eof_comment.
+  cls_string_key cls_self_alias cls_outline_span ident_text_at cls_prefix_fallback chain_before cls_other_entity chain_after cls_later_member cls_eof_comment
+  text_designates texts_designate range_designates_any word_at cls_ann_bytes cls_ann_bytes_doc ann_unbyte cls_ann_type_word.
